@@ -92,7 +92,40 @@ def random_wild(rng):
     return h
 
 
+def big_samples(rep):
+    """samples of 2^24 bytes and more (the 24-bit esds buffer_size_db): real muxer only, the model is not asked to hold 16 MiB byte lists"""
+    import json
+    import common
+    hs = []
+    for kind in ("aac", "avc"):
+        for ln in ((1 << 24) - 1, 1 << 24, (1 << 24) + 5):
+            for n in (1, 2):
+                hs.append({"base": 0, "cfg": muxgen.DEFAULT_CFG, "ops": [{"add": muxgen.tc(kind)}] + [{"w": [1, 1024, 0, True, {"fill": 3, "len": ln, "step": 0}]}] * n})
+            hs.append({"base": 0, "cfg": muxgen.DEFAULT_CFG, "ops": [{"add": muxgen.tc(kind)}, {"w": [1, 1024, 0, True, {"fill": 3, "len": ln, "step": 0}]}, {"w": [1, 1024, 0, True, "aa"]}]})
+    fails = []
+    for profile in ("debug", "release"):
+        outs = common.harness_run("run", profile, [json.dumps(muxgen.to_harness(h, want_bytes=False, readback=False)) for h in hs], shards=4, timeout=900)
+        for h, raw in zip(hs, outs):
+            try:
+                o = json.loads(raw)
+            except Exception:
+                o = {"dead": raw}
+            f = oracle_c17({"impl": o, "h": h}) if "dead" not in o else {"what": "worker died on a 16 MiB sample history: %s" % str(raw)[:60]}
+            if f:
+                fails.append(dict(f, kind="input", profile=profile, history={"cfg": h["cfg"], "ops": [h["ops"][0], "... %d samples of %d bytes" % (len(h["ops"]) - 1, h["ops"][1]["w"][4]["len"])]}))
+    return fails, len(hs)
+
+
 def check(rep):
+    import common
+    with common.Lock():
+        common.harness_build(["run"])
+    bf, nbig = big_samples(rep)
+    for i, f in enumerate(bf[:3]):
+        rep.violation("big_sample_%d" % i, f)
+    rep.coverage["big_sample_histories"] = nbig
+    if bf:
+        return
     rng = random.Random(rep.seed * 7919 + 17)
     hs = degenerate(rng, rep.tier) + [random_wild(rng) for _ in range(300 if rep.tier == "quick" else 5000)]
     muxcheck.run_property(rep, "C17", CONE, hs, [oracle_c17, then_valid],
